@@ -3,7 +3,9 @@
 
     No proofs here.  Everything that can be read off the syntax of the Python source is a field of
     the record [tables]; gen/backend.py regenerates an instance of it ([Run.GenLife.gen_tables])
-    from /repo on every run.  The control skeleton (the two poll loops, the order of
+    from /repo on every run.  Two places may record the results of a 'finished' reply: query_status
+    ([tb_store]) and from_json ([tb_store_fj], which then also applies to the reply to the
+    submission); the source decides which, the model has both.  The control skeleton (the two poll loops, the order of
     request / from_json / result update, the request log) is hand-written here and tied to the code by
     the correspondence run of checks/C17.py.
 
@@ -53,7 +55,10 @@ Record tables := {
   tb_status : str -> status;           (* WMIExperiment._from_wmi_status *)
   tb_terminal : status -> bool;        (* ExperimentStatus.is_terminal *)
   tb_guard : status -> guard;          (* head of query_status *)
-  tb_store : status -> bool;           (* query_status: condition of the results update *)
+  tb_store : status -> bool;           (* query_status: condition of the results update (after from_json) *)
+  tb_store_fj : status -> bool;        (* from_json: condition of a results update inside from_json itself, i.e. for
+                                          the reply to a status query AND for the reply to the submission
+                                          (fun _ => false when from_json does not touch the results) *)
   tb_fast_b : bool -> status -> bool;  (* results(): early return (has results, status) *)
   tb_tail_b : status -> bool;          (* results(): after the loop, return self._results iff *)
   tb_fast_a : bool -> status -> bool;  (* wait_for_results(): same two *)
@@ -120,7 +125,9 @@ Definition add_sleep (s : st) : st :=
 
 (** experiment.from_json(reply) *)
 Definition from_json (T : tables) (s : st) (r : reply) (polled : bool) : st :=
-  {| s_status := tb_status T (r_status r); s_results := s_results s; s_job := Some (r_job r);
+  {| s_status := tb_status T (r_status r);
+     s_results := if tb_store_fj T (tb_status T (r_status r)) then Some (r_payload r) else s_results s;
+     s_job := Some (r_job r);
      s_log := s_log s; s_sleeps := s_sleeps s; s_await := s_await s;
      s_last := Some r; s_polled := polled |}.
 
@@ -265,7 +272,10 @@ Record tables_ok (T : tables) (maxr : Z) : Prop := {
   ok_status : forall s, tb_status T s = spec_status s;
   ok_terminal : forall s, tb_terminal T s = spec_terminal s;
   ok_guard : forall s, tb_guard T s = spec_guard s;
-  ok_store : forall s, tb_store T s = status_eqb s DONE;
+  (* a reply to a status query stores its results iff the new status is DONE (in query_status or in from_json) *)
+  ok_store : forall s, tb_store T s || tb_store_fj T s = status_eqb s DONE;
+  (* from_json stores results either never, or exactly when the new status is DONE *)
+  ok_store_fj : forall s, tb_store_fj T s = tb_store_fj T DONE && status_eqb s DONE;
   ok_fast_b : forall h s, tb_fast_b T h s = h && status_eqb s DONE;
   ok_tail_b : forall s, tb_tail_b T s = status_eqb s DONE;
   ok_fast_a : forall h s, tb_fast_a T h s = h && status_eqb s DONE;
